@@ -34,6 +34,7 @@ class Fn:
     locals: dict          # local -> type
     blocks: dict          # name -> Block
     text: str = ""
+    consts: dict = field(default_factory=dict)   # named integer constants defined inside this function (printed after it)
 
 
 def dump_mir(repo: Path, features_default: bool = True, timeout=600) -> str:
@@ -100,9 +101,16 @@ def parse(text: str) -> list:
                 j += 1
             body = lines[i:j + 1]
             fn = parse_fn(body)
+            i = j + 1
             if fn is not None:
                 fns.append(fn)
-            i = j + 1
+                # `const path::NAME: T = const V_T;` items that belong to this function follow it
+                k = i
+                while k < len(lines) and not lines[k].startswith("fn "):
+                    mm = re.match(r"^const (?:.*::)?(\w+): \w+ = const (-?\d+)_\w+;$", lines[k])
+                    if mm:
+                        fn.consts[mm.group(1)] = int(mm.group(2))
+                    k += 1
         else:
             i += 1
     return fns
